@@ -106,12 +106,25 @@ Definition glob_unsafe (b : string) : bool :=
      | String _ r => has_prefix ".." s || dd r
      end) b.
 
+Fixpoint contains_sub (sub s : string) : bool :=
+  has_prefix sub s || match s with EmptyString => false | String _ r => contains_sub sub r end.
+
+(* class 25 = F25: the profile has line numbers 2^63 or more apart AND the input asks for an annotated
+   source listing (web /source, the weblist command or flag) *)
+Definition f25 (lines : term) (asks_weblist : bool) : list Z :=
+  if in_F25 (gzs lines) && asks_weblist then [25] else [].
+
 Definition cls_C09 (i : term) : list Z :=
   let op := gs (gn i 0) in
   if String.eqb op "session" then
-    if existsb (str_existsb is_high) (gss (gn i 4) ++ gss (gn i 2)) then [900] else []
+    ((if existsb (str_existsb is_high) (gss (gn i 4) ++ gss (gn i 2)) then [900] else [])
+     ++ f25 (gn i 6) (existsb (contains_sub "weblist") (gss (gn i 4))))%list
   else if String.eqb op "locate" then
     if existsb (fun m => glob_unsafe (gs (gn m 1))) (gl (gn i 2)) then [901] else []
+  else if String.eqb op "web" then
+    f25 (gn i 4) (existsb (fun rq => String.eqb (gs (gn rq 0)) "/source") (gl (gn i 2)))
+  else if String.eqb op "cli" then
+    f25 (gn i 4) (existsb (contains_sub "weblist") (gss (gn i 1) ++ gss (gn i 2))%list)
   else [].
 
 Definition skipped (i : term) : bool := existsb (fun c => 900 <=? c) (cls_C09 i).
